@@ -136,7 +136,7 @@ func ascending(l []int) bool {
 func configOf(c *Case) Config {
 	cfg := Config{Mode: c.Mode, Produces: c.Produces, Where: c.Where, Responses: [][]string{c.Responses}}
 	if c.Auth != nil {
-		cfg.AuthCtor, cfg.AuthRealm = c.Auth.Ctor, c.Auth.Realm
+		cfg.AuthCtor, cfg.AuthRealm, cfg.AuthAlts = c.Auth.Ctor, c.Auth.Realm, c.Auth.Alts
 	}
 	return cfg
 }
@@ -167,6 +167,8 @@ func (s *shardStats) run(r *report.R, e *env, c *Case) {
 		cc.Accept = append([]Range(nil), c.Accept...)
 		if c.Auth != nil {
 			a := *c.Auth
+			a.Alts = append([]string(nil), a.Alts...)
+			a.States = append([]string(nil), a.States...)
 			cc.Auth = &a
 		}
 		r.Fail(class, what, cc)
@@ -459,6 +461,7 @@ func main() {
 		}
 	})
 
+	altSweep(r, done)
 	seqSweep(r, done)
 
 	for _, k := range sortedKeys(total) {
@@ -489,7 +492,7 @@ func main() {
 		"recording producers never fail; Accept headers are well-formed, parameter-free and use q in tenths (C07 owns the rest); produces entries are lower case",
 		"typed entry point = the call sequence of a go-swagger generated handler (RouteInfo, Authorize, BindValidRequest, Respond) written in the harness",
 	)
-	r.Finish("every element of the stated products (sweeps main, deep-accept [thorough], auth) is served once by the real Context (APIHandler, or the typed call sequence ending in Context.Respond) and judged by the reference; sweep seq: every ordered pair (thorough: also every ordered triple over a smaller alphabet) of steps (operation x handler outcome x Accept x entry point) over a description whose operations have no / a duplicated / a distinct operationId and declare different success codes and produces lists is served by ONE fresh Context, plus one walk per description that passes through every ordered pair on a single Context; every step is judged by the reference AND must give exactly the observation (status, headers, body, producer / Responder / error-responder calls) the same step gives as the first request of a fresh instance; one evaluation = one request; non-trivial = at least one MUST clause of the property applied to the case (its situation label does not start with 'may/') or, in sweep seq, the request was not the first one of its Context (cases are distinct by construction: the enumerator never repeats a (configuration, request, outcome, entry point) tuple nor a sequence)", true)
+	r.Finish("every element of the stated products (sweeps main, deep-accept [thorough], auth, auth-alts) is served once by the real Context (APIHandler, or the typed call sequence ending in Context.Respond) and judged by the reference; sweep seq: every ordered pair (thorough: also every ordered triple over a smaller alphabet) of steps (operation x handler outcome x Accept x entry point) over a description whose operations have no / a duplicated / a distinct operationId and declare different success codes and produces lists is served by ONE fresh Context, plus one walk per description that passes through every ordered pair on a single Context; every step is judged by the reference AND must give exactly the observation (status, headers, body, producer / Responder / error-responder calls) the same step gives as the first request of a fresh instance; one evaluation = one request; non-trivial = at least one MUST clause of the property applied to the case (its situation label does not start with 'may/') or, in sweep seq, the request was not the first one of its Context (cases are distinct by construction: the enumerator never repeats a (configuration, request, outcome, entry point) tuple nor a sequence)", true)
 }
 
 func countAscending(ls [][]int) int {
@@ -756,5 +759,88 @@ func seqSweep(r *report.R, done func(*shardStats, int)) {
 			st.outcomes["deviation/"+class+"/long-history"]++
 		}
 		done(st, 500000+ci)
+	})
+}
+
+// ---- sweep "auth-alts": several security alternatives (OR), none / some failing ----
+
+func altSweep(r *report.R, done func(*shardStats, int)) {
+	schemes := []string{"basic", "key1", "key2"}
+	var altLists [][]string
+	for _, l := range lists(len(schemes), 3) {
+		if len(l) >= 2 {
+			al := make([]string, len(l))
+			for i, x := range l {
+				al[i] = schemes[x]
+			}
+			altLists = append(altLists, al)
+		}
+	}
+	states := []string{"absent", "fail", "ok"}
+	ctors := []string{"BasicAuthRealm", "BasicAuthRealmCtx"}
+	altModes := []string{"json"}
+	if r.Thorough() {
+		altModes = []string{"json", "none"}
+	}
+	accepts := [][]Range{nil, {{mtText, 10}}, {{"image/png", 10}}}
+	shapes := []shape{{"GET", "", "op"}, {"HEAD", "", "op"}, {"POST", "json", "op"}}
+	outcomes := []string{"string", "err-api"}
+	r.Set("axes_auth_alts", map[string]any{
+		"schemes":            "basic (realm 'custom'; refusal = the authenticate function's 401 error), key1 (apiKey header X-Key1; refusal = its own 403 error), key2 (X-Key2; refusal = its own 429 error)",
+		"alternative_lists":  fmt.Sprintf("every ordered list of 2..3 distinct single-scheme alternatives: %d", len(altLists)),
+		"per_alternative":    states,
+		"basic_constructors": ctors,
+		"modes":              altModes,
+		"accept":             renderAll(accepts),
+		"shapes":             shapes,
+		"outcomes":           outcomes,
+		"entry_points":       []string{"untyped", "typed"},
+		"oracle":             "handler did not run: error responder invoked once; when some alternative returned an error, with one of those errors (identity); Basic challenge naming the realm when the basic alternative rejected credentials",
+	})
+	type key struct {
+		ctor string
+		alts []string
+	}
+	var ks []key
+	for _, ct := range ctors {
+		for _, al := range altLists {
+			ks = append(ks, key{ct, al})
+		}
+	}
+	produces := []string{mtText}
+	resp := [][]string{{"200"}}
+	enum.Parallel(len(ks), r.OutOfTime, func(i int) {
+		k := ks[i]
+		doc, regs := loadDoc(Config{Produces: produces, Where: "op", Responses: resp, AuthCtor: k.ctor, AuthAlts: k.alts})
+		for _, mode := range altModes {
+			e := buildEnvWith(Config{Mode: mode, Produces: produces, Where: "op", Responses: resp, AuthCtor: k.ctor, AuthRealm: "custom", AuthAlts: k.alts}, doc, regs)
+			st := &shardStats{outcomes: map[string]int64{}}
+			c := Case{Sweep: "auth-alts", Mode: mode, Produces: produces, Where: "op", Responses: []string{"200"}}
+			sizes := make([]int, len(k.alts))
+			for j := range sizes {
+				sizes[j] = len(states)
+			}
+			enum.Product(sizes, func(idx []int) {
+				ss := make([]string, len(idx))
+				for j, x := range idx {
+					ss[j] = states[x]
+				}
+				c.Auth = &Auth{Ctor: k.ctor, Realm: "custom", Alts: k.alts, States: ss}
+				for _, via := range []string{"untyped", "typed"} {
+					c.Via = via
+					for _, acc := range accepts {
+						c.NoAccept, c.Accept = acc == nil, acc
+						for _, sh := range shapes {
+							c.Method, c.Body, c.Target = sh.Method, sh.Body, sh.Target
+							for _, oc := range outcomes {
+								c.Outcome = oc
+								st.run(r, e, &c)
+							}
+						}
+					}
+				}
+			})
+			done(st, 250000+i)
+		}
 	})
 }
